@@ -11,6 +11,7 @@ package main
 
 import (
 	"crypto/elliptic"
+	"encoding/json"
 	"fmt"
 	"math/big"
 	"math/rand"
@@ -121,12 +122,17 @@ func c04Whole(idx int, rng *rand.Rand, tr *ndWriter, kind string) *Result {
 	circ, _ := mkTwoParty(tc)
 	x := bitsToBig(tc.Inp[:n0])
 	y := bitsToBig(tc.Inp[n0:])
-	sr := runWhole(circ, x, y, sessOpts{ot: kind, record: true, randSeed: uint64(seed())<<32 + uint64(idx)*3 + 1, corruptAt: -1})
+	// every third session draws its randomness from a source that returns at most 64 bytes per Read
+	short := []int{0, 64, 0}[idx%3]
+	if short > 0 {
+		res.Class += ":short-reads"
+	}
+	sr := runWhole(circ, x, y, sessOpts{ot: kind, record: true, randSeed: uint64(seed())<<32 + uint64(idx)*3 + 1, corruptAt: -1, shortRand: short})
 	if sr.gErr != nil || sr.eErr != nil || sr.stalled || sr.gPanic != "" || sr.ePanic != "" {
 		res.viol("session-failed:"+kind, "whole-circuit session failed: g=%v e=%v stalled=%v", sr.gErr, sr.eErr, sr.stalled)
 		return res
 	}
-	g, _, err := regarble(circ, sr.gRand)
+	g, _, err := regarble(circ, sr.gRand, short)
 	if err != nil {
 		res.drift("cannot recompute the garbling from the recorded randomness: %v", err)
 		return res
@@ -359,10 +365,29 @@ func main(a int9, b int9) int9 {
 }`, func(r *rand.Rand) []string { return []string{fmt.Sprint(r.Intn(200))} }, func(r *rand.Rand) []string { return []string{fmt.Sprint(r.Intn(200))} }},
 }
 
+// bitwise programs: many INV, AND and OR gates on shared wires, at several widths
+func c04BitProg(rng *rand.Rand) (string, []string, []string) {
+	w := []int{8, 16, 32, 64}[rng.Intn(4)]
+	bodies := []string{
+		"return a & b, (a >> %[2]d) &^ b",
+		"return (a | b) &^ (a >> 1), a & (b << %[2]d)",
+		"c := a &^ b\n\td := (b &^ a) | (c >> %[2]d)\n\treturn c & d, d | a",
+		"return (a ^ b) & (a >> %[2]d), (a &^ b) & (b &^ (a << 1))",
+	}
+	body := fmt.Sprintf(bodies[rng.Intn(len(bodies))], w, w/2)
+	src := fmt.Sprintf("package main\n\nfunc main(a, b uint%[1]d) (uint%[1]d, uint%[1]d) {\n\t%[2]s\n}\n", w, body)
+	max := new(big.Int).Lsh(big.NewInt(1), uint(w))
+	return src, []string{new(big.Int).Rand(rng, max).String()}, []string{new(big.Int).Rand(rng, max).String()}
+}
+
 func c04Stream(idx int, rng *rand.Rand, tr *ndWriter, kind string) *Result {
-	res := &Result{Case: idx, Class: "stream:" + kind}
 	p := c04StreamProgs[idx%len(c04StreamProgs)]
-	sr := runStream(p.src, p.x(rng), p.y(rng), sessOpts{ot: kind, record: true, randSeed: uint64(seed())<<32 + uint64(idx)*3 + 2, corruptAt: -1})
+	return c04StreamSrc(idx, tr, kind, p.src, p.x(rng), p.y(rng))
+}
+
+func c04StreamSrc(idx int, tr *ndWriter, kind, src string, xs, ys []string) *Result {
+	res := &Result{Case: idx, Class: "stream:" + kind}
+	sr := runStream(src, xs, ys, sessOpts{ot: kind, record: true, randSeed: uint64(seed())<<32 + uint64(idx)*3 + 2, corruptAt: -1})
 	if sr.gErr != nil || sr.eErr != nil || sr.stalled || sr.gPanic != "" || sr.ePanic != "" {
 		res.viol("session-failed:stream", "streaming session failed: g=%v e=%v stalled=%v panic=%q/%q", sr.gErr, sr.eErr, sr.stalled, sr.gPanic, sr.ePanic)
 		return res
@@ -516,6 +541,34 @@ func c04Main(args []string) error {
 	for i := 0; i < (n+1)/2; i++ {
 		out.put(c04Stream(idx, rng, tr, kinds[i%3]))
 		idx++
+	}
+	// bitwise programs and TLC-generated programs (Mpcl.tla) in streaming mode
+	for i := 0; i < n; i++ {
+		src, xs, ys := c04BitProg(rng)
+		out.put(c04StreamSrc(idx, tr, kinds[i%3], src, xs, ys))
+		idx++
+	}
+	if len(args) > 4 {
+		err := readND(args[4], func(raw json.RawMessage) error {
+			var mc mpCase
+			if err := json.Unmarshal(raw, &mc); err != nil {
+				return err
+			}
+			src := renderMpcl(&mc)
+			if _, err := compileMPCL(src, nil); err != nil {
+				return nil // the compiler refuses the program: nothing to run
+			}
+			mx := new(big.Int).Lsh(big.NewInt(1), uint(mc.Ta.width()))
+			my := new(big.Int).Lsh(big.NewInt(1), uint(mc.Tb.width()))
+			r := c04StreamSrc(idx, tr, kinds[idx%3], src, []string{new(big.Int).Rand(rng, mx).String()}, []string{new(big.Int).Rand(rng, my).String()})
+			r.Class = "stream-generated:" + kinds[idx%3]
+			out.put(r)
+			idx++
+			return nil
+		})
+		if err != nil {
+			return err
+		}
 	}
 	for i := 0; i < (n+3)/4; i++ {
 		out.put(c04Deviate(idx, rng, kinds[i%3]))
